@@ -475,7 +475,7 @@ def case_seed(d):
     N = len(seed)
     rows = target.reshape(-1, N)
     coq = "(KSeed %s %s %s %s)" % (nlit(N), fl(seed), llit([fl(r) for r in rows]), fl(out))
-    c = Case(coq, {"d": d, "observed": arr_desc(out)}, "seed/rows=%d" % len(rows))
+    c = Case(coq, {"d": d, "observed": arr_desc(out)}, "seed/%s/rows=%d" % (dclass(seed), len(rows)))
     c.out = out
     return c
 
@@ -698,7 +698,7 @@ def case_xcorr(d):
     else:
         atol = 1e-9 * N * float(np.max(np.abs(fdata))) ** 2      # relative to the data scale
         coq = "(KXcorr %s %s %s %s %s)" % (nlit(nch), nlit(N), flit(atol), llit([fl(r) for r in lib]), llit([fl(r) for r in rows]))
-    c = Case(coq, {"d": d, "observed": arr_desc(out)}, "%s/nch=%d" % (d["k"], nch))
+    c = Case(coq, {"d": d, "observed": arr_desc(out)}, "%s/%s/nch=%d" % (d["k"], dclass(data), nch))
     c.out = out
     return c
 
@@ -775,7 +775,10 @@ def gen_xcorr(rng, maxn, which, N=None):
         if np.ptp(r) == 0:
             r[0] += 1.0
     if which == "xcorr_norm":
-        data = data + 3.0      # keeps the entries the code divides by away from zero
+        data = np.abs(data) + 0.5      # all-positive channels: the zero-lag entries the code divides by cannot vanish
+        for r in data:
+            if np.ptp(r) == 0:
+                r[0] += 1.0
     data = data * 2.0 ** pick_scale(rng, "float64")
     return {"k": which, "data": arr_desc(data), "dt": rng.choice([1.0, 0.5, 2.0]),
             "v": rng.choice(["plain", "plain", "fortran", "strided", "negstride", "readonly", "plus0"])}
@@ -793,7 +796,7 @@ def case_corrspec(d):
     X2 = fftpack.fft(x2.astype(float) - np.mean(x2.astype(float)))
     n = len(x1)
     coq = "(KCorrSpec %s %s %s %s %s %s %s)" % (nlit(n), blit(d["norm"]), fl(x1), fl(x2), fclist(X1), fclist(X2), fl(ccn))
-    c = Case(coq, {"d": d, "observed": arr_desc(ccn)}, "correlation_spectrum/norm=%s/%s" % (d["norm"], "even" if n % 2 == 0 else "odd"))
+    c = Case(coq, {"d": d, "observed": arr_desc(ccn)}, "correlation_spectrum/%s/norm=%s/%s" % (dclass(x1), d["norm"], "even" if n % 2 == 0 else "odd"))
     c.out = np.asarray(ccn)
     return c
 
